@@ -22,6 +22,55 @@ def used(name):
 
 
 # ---------------------------------------------------------------------------
+class BitStr:
+    """A Python str of known length whose characters are concrete characters or
+    symbolic binary digits (z3 Bool: True = '1').  Produced by '{0:0Nb}'.format."""
+    def __init__(self, chars):
+        self.chars = list(chars)
+
+    def z3str(self):
+        parts = [z3.StringVal(c) if isinstance(c, str) else z3.If(c, z3.StringVal("1"), z3.StringVal("0"))
+                 for c in self.chars]
+        if not parts:
+            return z3.StringVal("")
+        return z3.Concat(parts) if len(parts) > 1 else parts[0]
+
+    @staticmethod
+    def of(v):
+        if isinstance(v, BitStr):
+            return v
+        if isinstance(v, str):
+            return BitStr(list(v))
+        return None
+
+
+def bitchar_eq(c, d):
+    """equality of two characters (concrete or bit)"""
+    if isinstance(c, str) and isinstance(d, str):
+        return c == d
+    if isinstance(c, str):
+        c, d = d, c
+    if isinstance(d, str):
+        if d == "1":
+            return c
+        if d == "0":
+            return z3.Not(c)
+        return False
+    return c == d
+
+
+def bitstr_eq(a, b):
+    a, b = BitStr.of(a), BitStr.of(b)
+    if len(a.chars) != len(b.chars):
+        return False
+    cs = [bitchar_eq(x, y) for x, y in zip(a.chars, b.chars)]
+    if any(c is False for c in cs):
+        return False
+    cs = [c for c in cs if c is not True]
+    return z3.And(cs) if cs else True
+
+
+# ---------------------------------------------------------------------------
 # payload resolution
 # ---------------------------------------------------------------------------
 PAYLOAD_ORDER = [S.BV_CONSTANT, S.INT_CONSTANT, S.REAL_CONSTANT, S.BOOL_CONSTANT, S.STR_CONSTANT,
@@ -133,7 +182,7 @@ def pykind(world, v):
         return "Fraction"
     if isinstance(v, FloatVal):
         return "float"
-    if isinstance(v, str) or is_sym_str(v):
+    if isinstance(v, str) or is_sym_str(v) or isinstance(v, BitStr):
         return "str"
     if v is None:
         return "NoneType"
@@ -185,6 +234,8 @@ def _is_pow2_minus1(e):
 def _is_pow2(e):
     if is_z3(e) and z3.is_app(e) and e.decl().eq(S.pow2.f):
         return e.arg(0)
+    if is_z3(e) and z3.is_int_value(e):
+        e = e.as_long()
     if isinstance(e, int) and e > 0 and e & (e - 1) == 0:
         return z3.IntVal(e.bit_length() - 1)
     return None
@@ -222,6 +273,19 @@ def binop(world, ex, opname, a, b):
             return world.node_dunder(ex, a, "__%s__" % dun, [b])
         return world.node_dunder(ex, b, "__r%s__" % dun, [a])
     # strings
+    if isinstance(a, BitStr) or isinstance(b, BitStr):
+        if opname == "+" and BitStr.of(a) is not None and BitStr.of(b) is not None:
+            return BitStr(BitStr.of(a).chars + BitStr.of(b).chars)
+        if opname == "*" and isinstance(a, BitStr) and is_intish(b):
+            n = concretize_int(world, ex, b, 0, 70, "str-repeat-bound")
+            return BitStr(a.chars * max(n, 0))
+        if opname == "%" and isinstance(a, str):
+            return str_format(world, ex, a, b)
+        if opname == "+" and (is_sym_str(a) or is_sym_str(b)):
+            a2 = a.z3str() if isinstance(a, BitStr) else to_str(a)
+            b2 = b.z3str() if isinstance(b, BitStr) else to_str(b)
+            return z3.Concat(a2, b2)
+        raise Unsupported("operator %s on a binary-digit string" % opname)
     if is_strish(a) and opname == "+" and is_strish(b):
         used("str.+")
         return z3.Concat(to_str(a), to_str(b))
@@ -275,8 +339,12 @@ def binop(world, ex, opname, a, b):
         if opname == "**":
             if isinstance(b, int):
                 return _real_pow(ex, ra, b)
-            if is_sym_int(b) or is_sym_real(b):
-                raise Unsupported("symbolic exponent on a rational")
+            if is_sym_int(b):
+                used("Fraction ** int = exact rational power")
+                if ex.decide(z3.And(ra == 0, b < 0)):
+                    raise PyRaise(ExcVal("ZeroDivisionError"))
+                return S.rpow(ra, b)
+            raise Unsupported("fractional symbolic exponent on a rational")
         raise Unsupported("real binop " + opname)
     ia, ib = to_int(a), to_int(b)
     used("int.arith")
@@ -308,7 +376,14 @@ def binop(world, ex, opname, a, b):
             return 1 / z3.ToReal(S.pow2(-ib))
         if isinstance(b, int) and 0 <= b <= 8:
             return z3.Product([ia] * b) if b > 0 else 1
-        raise Unsupported("symbolic power")
+        used("int ** int: exact for exponent >= 0, float (rounded) below")
+        if ex.decide(ib >= 0):
+            r = ex.fresh("ipow", I)
+            ex.assume(z3.ToReal(r) == S.rpow(z3.ToReal(ia), ib))
+            return r
+        if ex.decide(ia == 0):
+            raise PyRaise(ExcVal("ZeroDivisionError"))
+        return float_of_real(world, ex, S.rpow(z3.ToReal(ia), ib))
     if opname == "<<":
         used("int.<<")
         if ex.decide(ib < 0):
@@ -435,6 +510,14 @@ def _eq(world, ex, a, b):
     if isinstance(b, PayloadView):
         b = resolve_payload(world, ex, b)
         return _eq(world, ex, a, b)
+    if isinstance(a, BitStr) or isinstance(b, BitStr):
+        if BitStr.of(a) is not None and BitStr.of(b) is not None:
+            return bitstr_eq(a, b)
+        if is_sym_str(a) or is_sym_str(b):
+            a2 = a.z3str() if isinstance(a, BitStr) else to_str(a)
+            b2 = b.z3str() if isinstance(b, BitStr) else to_str(b)
+            return a2 == b2
+        return False
     if is_node(a) and is_node(b):
         return a == b
     if is_node(a) or is_node(b):
@@ -585,7 +668,8 @@ def contains(world, ex, cont, x):
     if isinstance(cont, PayloadView):
         cont = resolve_payload(world, ex, cont)
     if isinstance(cont, (set, frozenset, list, tuple)):
-        if concrete(x) and all(concrete(c) for c in cont) and not isinstance(x, (Obj,)):
+        if concrete(x) and all(concrete(c) for c in cont) and not isinstance(x, (Obj, BitStr)) \
+                and not any(isinstance(c, BitStr) for c in cont):
             try:
                 return x in cont
             except TypeError:
@@ -650,6 +734,8 @@ def length(world, ex, v):
         v = resolve_payload(world, ex, v)
     if isinstance(v, (list, tuple, dict, set, frozenset, str)):
         return len(v)
+    if isinstance(v, BitStr):
+        return len(v.chars)
     if isinstance(v, SetVal) or isinstance(v, DictVal):
         return len(v.items)
     if isinstance(v, ArgsView):
@@ -707,6 +793,8 @@ def iterate(world, ex, v):
         return items
     if isinstance(v, str):
         return list(v)
+    if isinstance(v, BitStr):
+        return [BitStr([c]) for c in v.chars]
     if isinstance(v, range):
         return list(v)
     if isinstance(v, Generator):
@@ -838,6 +926,16 @@ def getitem(world, ex, o, k):
             if ex.decide(_eq(world, ex, k, kk)):
                 return vv
         raise PyRaise(ExcVal("KeyError", (k,)))
+    if isinstance(o, BitStr):
+        if isinstance(k, slice):
+            if not all(x is None or isinstance(x, int) for x in (k.start, k.stop, k.step)):
+                lo = None if k.start is None else concretize_int(world, ex, k.start, -70, 70, "slice-bound")
+                hi = None if k.stop is None else concretize_int(world, ex, k.stop, -70, 70, "slice-bound")
+                st = None if k.step is None else concretize_int(world, ex, k.step, -2, 2, "slice-bound")
+                k = slice(lo, hi, st)
+            return BitStr(o.chars[k])
+        i = norm_index(world, ex, k, len(o.chars))
+        return BitStr([o.chars[i]])
     if is_strish(o):
         return str_getitem(world, ex, o, k)
     if isinstance(o, Obj):
@@ -1024,7 +1122,7 @@ def to_str_value(world, ex, v):
     """str(v)"""
     if isinstance(v, PayloadView):
         v = resolve_payload(world, ex, v)
-    if isinstance(v, str) or is_sym_str(v):
+    if isinstance(v, str) or is_sym_str(v) or isinstance(v, BitStr):
         return v
     if isinstance(v, bool):
         return str(v)
@@ -1052,6 +1150,12 @@ def str_concat(world, ex, parts):
         return Opaque("str")
     if all(isinstance(p, str) for p in parts):
         return "".join(parts)
+    if all(isinstance(p, (str, BitStr)) for p in parts):
+        out = []
+        for p in parts:
+            out.extend(BitStr.of(p).chars)
+        return BitStr(out)
+    parts = [p.z3str() if isinstance(p, BitStr) else p for p in parts]
     ps = [to_str(p) for p in parts if not (isinstance(p, str) and p == "")]
     if not ps:
         return ""
